@@ -240,7 +240,7 @@ static inline std::vector<int> gen_pieces(Tape &t, int64_t N, std::vector<char> 
   if (style == 0) p.push_back((int)N);
   else if (style == 1) { int c = 1 + t.below(5000); for (int64_t d = 0; d < N; d += c) p.push_back((int)std::min<int64_t>(c, N - d)); }
   else if (style == 2) { int64_t d = 0; while (d < N) { int c = 1 + (int)t.below(t.chance(1, 4) ? 60000 : 3000); c = (int)std::min<int64_t>(c, N - d); p.push_back(c); d += c; if (p.size() > 400) { p.push_back((int)(N - d)); break; } } }
-  else { if (N <= 3000) for (int64_t d = 0; d < N; d++) p.push_back(1); else { int c = 1 + t.below(64); for (int64_t d = 0; d < N; d += c) p.push_back((int)std::min<int64_t>(c, N - d)); } }
+  else { if (N <= 3000) for (int64_t d = 0; d < N; d++) p.push_back(1); else { int c = 1 + t.below(64); if (N / c > 6000) c = (int)(N / 6000) + 1;   /* tiny pieces of a long input only cost harness time (a realloc per call) */ for (int64_t d = 0; d < N; d += c) p.push_back((int)std::min<int64_t>(c, N - d)); } }
   int ds = t.weighted({3, 2, 1});   // drain after every write, random, only at end
   for (size_t i = 0; i < p.size(); i++) drain_after.push_back(ds == 0 ? 1 : ds == 1 ? (char)t.below(2) : 0);
   return p;
@@ -456,6 +456,9 @@ static inline void vf_read_all(OggVorbis_File *vf, std::vector<PCM> &per_link, s
     for (int c = 0; c < ch && c < (int)per_link[bs].size(); c++) per_link[bs][c].insert(per_link[bs][c].end(), pcm[c], pcm[c] + r);
   }
 }
+
+// what ov_read must produce for one float sample in 16-bit signed host order: scale (in float), round to nearest, clip
+static inline int expect_i16(float x) { double v = (double)(x * 32768.f); double rr = nearbyint(v); if (rr > 32767) rr = 32767; if (rr < -32768) rr = -32768; return (int)rr; }
 
 static inline bool pcm_equal(const PCM &a, const PCM &b, std::string *why = nullptr) {
   if (a.size() != b.size()) { if (why) *why = sfmt("channels %zu vs %zu", a.size(), b.size()); return false; }
